@@ -34,6 +34,21 @@ def execute(cfgs, parallel=None, timeout=240, env_extra=None, label='run'):
             spec = dict(spec, sched_sock=os.path.join(wd, 's.sock'))
             sch = sched.Scheduler(spec['sched_sock'], sc['jobs'],
                                   sc['choices'], sc.get('tail', 'fifo'))
+        if meta.get('plan'):
+            # completion order AND verdicts dictated by a behaviour that TLC
+            # generated from HierSched.tla (lib/hreplay.py)
+            import hreplay
+            os.makedirs(wd, exist_ok=True)
+            pl = meta['plan']
+            if 'system' not in pl:
+                # from a replay file: the system is extracted again
+                nm = pl['system_name']
+                pl['system'] = hreplay.extract(*hreplay.SYSTEMS[nm], nm)
+            spec = dict(spec, sched_sock=os.path.join(wd, 's.sock'))
+            sch = hreplay.PlanScheduler(
+                spec['sched_sock'], pl['jobs'], pl['system'], pl['beh'],
+                os.path.join(wd, 'events.ndjson'),
+                patience=10 + 10 * runs.calibrate())
         try:
             r = runs.run_ddsmt(wd, text, spec, opts, timeout=timeout,
                                env_extra=ee, ext=meta.get('ext', '.smt2'),
@@ -44,6 +59,9 @@ def execute(cfgs, parallel=None, timeout=240, env_extra=None, label='run'):
             if sch:
                 sch.stop()
                 meta['decisions'] = list(sch.decisions)
+                if meta.get('plan'):
+                    meta['diverged'] = sch.diverged
+                    meta['controlled'] = sch.controlled
         if r.cmdlog and not r.cmdlog[0].get('verdict') and \
                 not spec.get('mode') == 'never':
             # a configuration of the harness, not a finding: every candidate
@@ -114,8 +132,14 @@ def describe(it):
 
 
 def replay_obj(it):
+    meta = {k: v for k, v in it.meta.items()}
+    if 'plan' in meta:
+        # a replay file carries the behaviour, not the whole system
+        meta['plan'] = {'jobs': meta['plan']['jobs'],
+                        'beh': meta['plan']['beh'],
+                        'system_name': meta['plan']['system']['name']}
     return {'input': it.text, 'spec': it.spec, 'opts': it.opts,
-            'meta': {k: v for k, v in it.meta.items()}}
+            'meta': meta}
 
 
 def trace_violations(rep, it, clauses=None, prefix=''):
